@@ -73,7 +73,8 @@ def _shard(ctx, shard, nshards):
 
 
 def run(ctx):
+    native.setup()       # translate + compile once, before the shard processes fork
     ctx.shards(_shard, 16, 16)
     return RULE, 'exploration', [
-        'Tree.of_nltk_tree needs NLTK (absent here); the same label-recovery function is exercised through the four readers',
+        'Tree.of_nltk_tree is driven with a duck-typed stand-in for nltk.tree.Tree (label() + children); Tree.nltk_tree needs NLTK itself and is not exercised',
         'Cython semantics of parsing.pyx are emulated by the pyxlite translator']
